@@ -354,3 +354,20 @@ Theorem C11_stream_delivery : forall ms chunks,
       read_all (s_le m) (s_sig m) (m_body msg) = inl (s_body m)) ms msgs.
 Proof. exact stream_delivery. Qed.
 Print Assumptions C11_stream_delivery.
+
+(* the same when what has arrived ends inside a message (a proper prefix [tail] of the serialisation of a further
+   well-formed message, cut anywhere - inside the fixed header or later): the complete messages are delivered
+   exactly as above, no corruption verdict is reached on the partial one, and exactly [tail] stays buffered for
+   the bytes still to come.  Non-vacuity: ex_in_flight in Proofs/EndToEnd.v. *)
+Theorem C11_stream_delivery_in_flight : forall ms tail chunks,
+  Forall (fun m => wf_msg m = true /\ spec_nfds (s_fields m) = 0) ms ->
+  (tail = [] \/ exists m c, (wf_msg m = true /\ spec_nfds (s_fields m) = 0) /\ tail ++ c = spec_encode_message m /\ c <> []) ->
+  concat chunks = concat (map spec_encode_message ms) ++ tail ->
+  exists msgs, outcome (feed_all loader_new chunks) = (false, msgs) /\
+    Forall2 (fun m msg =>
+      m_header msg ++ m_body msg = spec_encode_message m /\ m_body msg = m_bodyb m /\ m_nfds msg = 0 /\
+      Forall2 (hf_ok (s_le m)) (s_fields m) (m_fields msg) /\
+      read_all (s_le m) (s_sig m) (m_body msg) = inl (s_body m)) ms msgs /\
+    l_buf (feed loader_new (concat chunks) 0) = tail.
+Proof. exact stream_delivery_in_flight. Qed.
+Print Assumptions C11_stream_delivery_in_flight.
